@@ -243,6 +243,26 @@ def run(repo, run, tier):
                   "declarator (otherwise `void *` / `void (*)()` parameters vanish)" % whole, dm.loc(d),
                   sample=dict(tests=whole))
 
+    # independent qualifiers are rendered by independent tests: `const` and `volatile` (and a function's trailing
+    # const) can all be present, so none may sit in the else-arm of another
+    QUAL = ("const", "volatile", "func_const")
+    nq = 0
+    for q, fn in sorted(dm.functions().items()):
+        if not q.split(".")[-1] in ("gen_decl_work", "gen_arg_as_lang", "__str__", "gen_decl", "_as_arg"):
+            continue
+        for node in ast.walk(fn):
+            if isinstance(node, ast.If):
+                a = pyflow.dotted(node.test) or ""
+                if a.startswith("self.") and a[5:] in QUAL:
+                    nq += 1
+                    inner = [x for x in node.orelse if isinstance(x, ast.If)]
+                    clash = [pyflow.dotted(x.test) for x in inner if (pyflow.dotted(x.test) or "").startswith("self.")
+                             and (pyflow.dotted(x.test) or "")[5:] in QUAL and len(node.orelse) == 1]
+                    run.check(R1, "declast.%s:%s" % (q, a), not clash,
+                              "`%s` is only rendered when `%s` is absent (elif): a declaration carrying both qualifiers "
+                              "loses one" % (clash[0] if clash else "", a), dm.loc(node), sample=dict(method=q, qualifier=a))
+    run.floor(R1, "qualifier tests in the renderers", nq, 5)
+
     # ---- R2 order
     common = ["const", "template_arguments", "declarator", "params", "func_const", "array"]
     o1 = [x for x in first_use_order(dm, dm.func("Declaration.gen_decl_work"), set(common)) if x in common]
